@@ -53,6 +53,14 @@ class PathAbort(BaseException):
     """Raised by ctx.choose once a CrossHair control-flow exception was parked."""
 
 
+class NeedChoice(BaseException):
+    """Prefix enumeration: the pinned prefix is used up and choose(n) is asked."""
+
+    def __init__(self, n):
+        BaseException.__init__(self, n)
+        self.n = n
+
+
 class InfeasibleShard(BaseException):
     """The pinned shard prefix does not fit the decisions this path asks for."""
 
@@ -105,6 +113,8 @@ class Ctx:
         self.shard = STATE.shard
         self.twin = STATE.twin
         self._sample = None
+        self.probing = False
+        self.need = None
 
     # -- decisions ---------------------------------------------------------
     def choose(self, n, label=""):
@@ -114,6 +124,9 @@ class Ctx:
         prefix = self.shard.get("prefix") or ()
         if self.replay_trace is not None:
             if k >= len(self.replay_trace):
+                if self.probing:
+                    self.need = self.need or n
+                    raise NeedChoice(self.need)
                 raise InfeasibleShard("replay trace exhausted at %d" % k)
             v = self.replay_trace[k]
             if not (0 <= v < n):
@@ -407,3 +420,37 @@ def replay(body, mode, params, trace, shard=None, twin=False):
     finally:
         _CURRENT[0] = None
     return False, "ok", None
+
+
+def enumerate_prefixes(body, mode, params, shard, depth):
+    """All decision-vector prefixes of length <= depth that ``body`` can take
+    (complete paths shorter than ``depth`` included), found by native probing.
+    Used to split one exploration into shards with pinned prefixes."""
+    STATE.symbolic = False
+    STATE.shard = dict(shard or {})
+    STATE.twin = False
+    out, work = [], [[]]
+    while work:
+        p = work.pop()
+        if len(p) >= depth:
+            out.append(p)
+            continue
+        ctx = Ctx(mode, replay_trace=list(p))
+        ctx.probing = True
+        _CURRENT[0] = ctx
+        try:
+            _run_isolated(body, ctx, dict(params))
+        except NeedChoice:
+            pass
+        except InfeasibleShard:
+            continue
+        except OracleFailure:
+            pass  # the worker that owns this prefix will report it
+        finally:
+            _CURRENT[0] = None
+        if ctx.need:
+            work.extend(p + [i] for i in range(ctx.need))
+        else:
+            out.append(p)
+    out.sort()
+    return out
